@@ -146,6 +146,32 @@ def z3_equivalent(case, orig, repl, scope):
     return 'unknown'
 
 
+def naive_substitution(mname, orig, case):
+    """What binder-unaware, simultaneous, outermost-first structural
+    substitution (the documented mechanism) yields; None if not applicable."""
+    try:
+        if mname == 'InlineDefinedFuns':
+            name = orig if isinstance(orig, str) else orig[0]
+            formals, _, body = case['defs'][name]
+            actuals = [] if isinstance(orig, str) else orig[1:]
+            if len(actuals) != len(formals):
+                return None
+            return model.subst_struct([body], [(f[0], a) for f, a in zip(formals, actuals)])[0]
+        return None  # LetSubstitution proposes one variable at a time: several candidates
+    except (KeyError, IndexError, TypeError):
+        return None
+
+
+def naive_let_candidates(orig):
+    out = []
+    try:
+        for b in orig[1]:
+            out.append(['let', orig[1], model.subst_struct([orig[2]], [(b[0], b[1])])[0]])
+    except (IndexError, TypeError):
+        pass
+    return out
+
+
 def mutators_listed(dd):
     out = []
     mods = dict(bv=dd.mutators_bv, boolean=dd.mutators_boolean, arithmetic=dd.mutators_arithmetic,
@@ -193,6 +219,16 @@ def check_script(dd, case, acc, muts, z3_budget=None):
                 # a formal parameter that hides a global of the same name is
                 # shadowing as well (its own class, see DESIGN.md C17)
                 shadow = case['shadow'] or bool(set(scope) & names)
+                if shadow and mname in ('InlineDefinedFuns', 'LetSubstitution'):
+                    # the known root cause is *binder-unaware but otherwise
+                    # correct* structural substitution: only a replacement that is
+                    # exactly the simultaneous structural substitution belongs to
+                    # that class; anything else is a different defect
+                    rp = model.to_plain(repl)
+                    if mname == 'LetSubstitution':
+                        shadow = rp in naive_let_candidates(orig)
+                    else:
+                        shadow = rp == naive_substitution(mname, orig, case)
                 r = compare(mname, orig, model.to_plain(repl), scope, ctxs, acc, case, shadow)
                 counts[mname] = counts.get(mname, 0) + 1
                 acc.count(f'{mname}:{r}')
